@@ -92,6 +92,7 @@ GhostAfter(p, a, q0) ==
                  \* only pods of the BatchRelease's update revision carry its labels: replacing them removes labels
                  !.wl.labelled = IF q0.br.exists /\ q0.br.updRev \in 1..3 /\ q0.wl.exists
                                  THEN Min(q0.wl.labelled, q0.wl.n[q0.br.updRev]) ELSE q0.wl.labelled,
+                 !.ghost.supBack = p.ghost.supBack \/ (a = "user.rollback" /\ p.user.rev >= 3),
                  !.ghost.midSwitch = p.ghost.midSwitch \/ (a \in {"user.rollback", "user.release3", "user.delete", "user.disable"}
                                                               /\ p.ro.exists /\ p.ro.hasSub /\ p.ro.fstep \notin {"", "END"}),
                  !.ghost.disSup = p.ghost.disSup \/ (a \in UserActs /\ (q0.user.disabled \/ q0.user.deleted) /\ (q0.user.rev >= 3 \/ q0.user.rolledBack)),
@@ -125,13 +126,14 @@ KF_JumpBack(st)  == st.ghost.jumpBack         \* KF-C04-backward-jump-after-full
 KF_Late(st)      == st.ghost.lateChange       \* KF-C05-late-template-change-clobbered
 KF_DisSup(st)    == st.ghost.disSup           \* KF-C05-exit-while-superseded
 KF_MidSwitch(st) == st.ghost.midSwitch        \* KF-C05-finalising-cursor-carried-across-reasons
+KF_SupBack(st)   == st.ghost.supBack          \* KF-C05-rollback-after-supersession
 
 T(a) == [base |-> a, fault |-> "", panic |-> "", act |-> a]
 
 Inv_C04a == StateHolds("C04a", s)
 Inv_C04b == StateHolds("C04b", s) \/ KF_JumpBack(s)
 Inv_C04c == StateHolds("C04c", s)
-Inv_C05  == C05(s) \/ KF_HoldLeft(s) \/ KF_Late(s) \/ KF_DisSup(s) \/ KF_MidSwitch(s)
+Inv_C05  == C05(s) \/ KF_HoldLeft(s) \/ KF_Late(s) \/ KF_DisSup(s) \/ KF_MidSwitch(s) \/ KF_SupBack(s)
 Inv_C05tr == C05tr(s)
 Inv_C10b == C10b(s)
 Inv_C18b == C18b(s) \/ KF_HoldLeft(s) \/ KF_DisSup(s) \/ KF_MidSwitch(s)
@@ -141,7 +143,7 @@ ActOK(n) == ActHolds(n, s, T(last'), s')
 KF_EditFull == used["user.editplan"] > 0
 Act_C01 == [][ActOK("C01a") /\ ActOK("C01ro") /\ ActOK("C01b") /\ ActOK("C01c")]_vars
 Act_C02 == [][ActOK("C02") /\ ActOK("C02pause") /\ ActOK("C02promote") /\ ActOK("C02edit") /\ (ActOK("C02adv") \/ KF_EditFull)]_vars
-Act_C03 == [][ActOK("C03a") /\ ActOK("C03b") /\ (ActOK("C03c") \/ KF_EditFull)]_vars
+Act_C03 == [][(ActOK("C03a") \/ KF_EditFull) /\ ActOK("C03b") /\ (ActOK("C03c") \/ KF_EditFull)]_vars
 Act_C10 == [][ActOK("C10a")]_vars
 Act_C11 == [][ActOK("C11a") /\ ActOK("C11b") /\ ActOK("C11c") /\ ActOK("C11d")]_vars
 Act_C18 == [][(ActOK("C18a") \/ KF_HoldLeft(s) \/ KF_DisSup(s) \/ KF_MidSwitch(s)) /\ ActOK("C18br") /\ ActOK("C18tr")]_vars
